@@ -19,4 +19,17 @@ def defaultDialogTimeout (env : Option Bytes) : Int :=
 def dialogTimeout (configured : Int) (env : Option Bytes) : Int :=
   if configured ≤ 0 then defaultDialogTimeout env else configured
 
+/-- `toKeepNextHopRoute(s)` for a non-empty setting (the empty one falls back to KEEP_NEXT_HOP_ROUTE of the
+environment: `env`) -/
+def toKeepNextHopRoute (s : Bytes) (env : Bytes := []) : Bool :=
+  let w := if s.isEmpty then env else s
+  [str "true", str "yes", str "1", str "on", str "t", str "y"].contains (toLower w)
+
+/-- `PreConfigHostResolver.AddHostIP` over a list of (name, ip): a map, the last entry for a name wins -/
+def lookupHost (pairs : List (Bytes × Bytes)) (name : Bytes) : Option Bytes :=
+  pairs.foldl (fun acc p => if p.1 == name then some p.2 else acc) none
+
+/-- `createPreConfigHostResolver(globalHostIPs, config)`: the global `hosts:` section first, then the service's own -/
+def hostTable (glob service : List (Bytes × Bytes)) : List (Bytes × Bytes) := glob ++ service
+
 end Side.Config
